@@ -3,3 +3,8 @@ From CMI Require Import Cxx.C16_Defs.
 Extraction "c16_model.ml" uniform ncells depth grid_first_key grid_next_key grid_enumerate grid_get_key
   grid_cell_of_key grid_refine gleaves gcode gcell_box volume morton demorton long_index indices cell_index
   cell_lo cell_hi neighbours wrap_axis Z.of_nat Z.to_nat.
+(* traversal clauses: binary64 instances of the interact models (PrimFloat -> OCaml floats) *)
+From Coq Require Import Floats ExtrOCamlFloats ExtrOCamlInt63.
+From CMI Require Import Cxx.C02_Defs Cxx.C16_InteractDefs.
+Extraction "c16i_model.ml" f_make_cgrid f_cart_interact f_cart_J f_amr_interact f_box_of f_amr_locate f_deposit_J cref_key
+  C16_Defs.uniform C16_Defs.refine C16_Defs.leaves C16_Defs.code Z.of_nat Z.to_nat.
